@@ -424,6 +424,10 @@ impl Fill for Context {
         if interleaved.is_empty() {
             return Ok(());
         }
+        if self.channels == 0 {
+            // samples cannot be counted per channel in a context without channels.
+            return Err(SourceError::by_reason(SourceErrorReason::InvalidBuffer));
+        }
         for v in interleaved {
             self.md5.update(&v.to_le_bytes()[0..self.bytes_per_sample]);
         }
@@ -437,8 +441,9 @@ impl Fill for Context {
         if bytes.is_empty() {
             return Ok(());
         }
-        if bytes_per_sample != self.bytes_per_sample {
-            // the bytes would be hashed and counted as samples of another width.
+        if bytes_per_sample != self.bytes_per_sample || bytes_per_sample == 0 || self.channels == 0 {
+            // the bytes would be hashed and counted as samples of another width,
+            // or cannot be counted as samples at all.
             return Err(SourceError::by_reason(SourceErrorReason::InvalidBuffer));
         }
         self.md5.update(bytes);
